@@ -347,7 +347,8 @@ def calculate_nd_frequencies(
     edges = [em[0] for em in edges_and_mask]
     masks = [em[1] for em in edges_and_mask]
 
-    ixgrid = np.ix_(*masks)  # Indexer to select parts we want
+    # Indexer to select parts we want (an axis without bins has an empty mask)
+    ixgrid = np.ix_(*(np.asarray(mask, dtype=np.intp) for mask in masks))
 
     # TODO: Right edges are not taken into account because they fall into inf bin
     frequencies, _ = np.histogramdd(data, edges, weights=weights)
